@@ -23,6 +23,7 @@ type RunConfig struct {
 	// Concrete, when non-nil, runs the harness once on this assignment without a solver (selftest).
 	Concrete map[string]uint64
 	Trace    bool
+	KnownMatch func(*Violation) string
 }
 
 type PathResult struct {
@@ -34,6 +35,7 @@ type PathResult struct {
 // Explore runs every feasible path of the harness function within the configured budgets.
 func (pr *Program) Explore(fn *ssa.Function, cfg RunConfig) *Explorer {
 	ex := NewExplorer()
+	ex.KnownMatch = cfg.KnownMatch
 	ex.MaxPaths = cfg.MaxPaths
 	if cfg.Timeout > 0 {
 		ex.Deadline = time.Now().Add(cfg.Timeout)
@@ -131,12 +133,15 @@ func (pr *Program) runPath(ex *Explorer, s *Solver, fn *ssa.Function, cfg RunCon
 	s.Preamble()
 	end := pr.execute(p, ip, fn)
 	p.flushQuiet()
+	if cfg.Trace {
+		fmt.Printf("TRACE path end=%s msg=%s decisions=%d obs=%v model=%s\n", end.End, end.Msg, len(p.dec), p.observations, modelString(p.model))
+	}
 	ex.mu.Lock()
 	defer ex.mu.Unlock()
 	st := ex.Stats
 	st.Paths++
 	st.PathsByEnd[end.End]++
-	if p.reachedNontrivial {
+	if p.reachedNontrivial || (len(p.dec) > 0 && p.trivial > 0) {
 		st.Nontrivial++
 	}
 	st.Obligations += p.obligations
